@@ -76,7 +76,10 @@ C11Clause(i) ==
 C09Clause(i) ==
    LET e == Tr[i] IN
    IF Sane(e) /\ e.exit = 0 /\ \E f \in Touched(e) : Dropped(e, f)
-   THEN "C09.previously-declared-information-dropped" ELSE ""
+   THEN "C09.previously-declared-information-dropped"
+   \* "after each successful run the file declares the union of everything it declared before and everything requested"
+   ELSE IF Sane(e) /\ e.exit = 0 /\ \E f \in FilesOf(e) : ~Complete(e, f) /\ ~LegitSkip(e, f)
+   THEN "C09.file-does-not-declare-the-union-of-before-and-request" ELSE ""
 C07Clause(i) ==
    LET e == Tr[i] IN
    IF ~Sane(e) \/ e.exit # 0 THEN ""
@@ -102,7 +105,8 @@ KF_C07_BeyondWindow(e) == \E f \in FilesOf(e) : f.post.beyondWindow
 (* block renders a header of two comment blocks; the next run finds the first block only and puts a complete new header in its   *)
 (* place - the old licence block stays below and one more is stacked by every run.                                             *)
 KF_C10_TwoBlocks(e) == e.req.twoBlocks
-KnownFinding(e, c) == IF c \in {"C07.read-back-differs-from-request", "C07.success-reported-but-requested-information-not-declared"}
+KnownFinding(e, c) == IF c \in {"C07.read-back-differs-from-request", "C07.success-reported-but-requested-information-not-declared",
+                               "C09.file-does-not-declare-the-union-of-before-and-request"}
                          /\ KF_C07_BeyondWindow(e) THEN "KF-C07-3"
                       ELSE IF c \in {"C10.identical-rerun-changed-the-file", "C10.second-header-block-stacked"} /\ KF_C10_TwoBlocks(e) THEN "KF-C10-4"
                       ELSE ""
